@@ -13,7 +13,8 @@ CMP_SYM = ["=", "==", "!=", "<", "<=", ">", ">=", "~", "~*", "=*"]
 CMP_WORD = ["IN", "EQ", "NE", "LT", "LE", "GT", "GE", "LIKE"]
 ARITH1 = ["+", "-"]
 ARITH2 = ["*", "/", "^"]
-FUNCS = ["tostring", "round", "length", "upper", "lower", "area", "commify", "firstcap", "initcap"]
+FUNCS = ["tostring", "round", "length", "upper", "lower", "area", "commify", "firstcap", "initcap",
+         "toString", "Length", "ROUND", "Upper", "firstCap", "Area"]   # (MapServer matches function names without regard to case; the text keeps the spelling)
 BINDS = ["[a]", "[NAME]", "[x_1]", "[pop2000]", "[b]"]
 INTS = ["0", "1", "7", "42", "100", "1000000"]
 DECS = ["2.5", "0.25", "10.125", "3.0"]
